@@ -2,7 +2,7 @@
 (* Binder family driver (C05 C06 C11 C12 C14): case = scripted-server case (harness/srv_script.go).
    Answer line: <model>\t<spec>\t<classes>; each column holds one item per QUERY step, joined by " | ".
      model  : what Model/Scope.v + Model/Resolve.v predict the server answers (same canonical text as srv.script,
-              hover projected to L|G + ":1" = names the identifier, completion projected to the labels that are
+              hover projected to L|G + ":" + the identifier the label names, completion projected to the labels that are
               identifiers of the workspace)
      spec   : what Spec/LuaScope.v demands for the occurrence under the cursor ("-" = no demand)
      classes: refuted classes true of that query ("-" = none)
@@ -100,11 +100,13 @@ let name_at (cx : ctx) ~docend_empty (f : n list) (line1 : z) (col : z) : (pf * 
       | CName s -> Some (p, s)
       | _ -> None)
 
+(* an answer that depends on the order-dependent workspace table (C09): the C12 relation makes no demand there *)
+exception Ambig
 let m_define cx f line1 col = match name_at cx ~docend_empty:true f line1 col with
-  | Some (p, s) -> (match define_at cx.mw p.fnb p.fi s line1 col with Some l -> l | None -> [])
+  | Some (p, s) -> (match define_at cx.mw p.fnb p.fi s line1 col with Some l -> l | None -> raise Ambig)
   | None -> []
 let m_refs mode cx f line1 col = match name_at cx ~docend_empty:true f line1 col with
-  | Some (p, s) -> (match references_at mode cx.mw p.fnb p.fi s line1 col with Some l -> l | None -> [])
+  | Some (p, s) -> (match references_at mode cx.mw p.fnb p.fi s line1 col with Some l -> l | None -> raise Ambig)
   | None -> []
 let m_highlight cx f line1 col = List.map snd (m_refs MHighlight cx f line1 col)
 let m_hover_local cx f line1 col = match name_at cx ~docend_empty:false f line1 col with
@@ -138,6 +140,7 @@ let eval_step (leg : string) (cx : ctx) (st : srv_step) : (string * string * str
           let m = "define=" ^ locs_s l in
           let sp = (match o with
               | None -> "-"
+              | Some _ when leg = "c12.consist" -> "-"
               | Some o ->
                 if define_ok cx.sw p.fnb o l then m
                 else (match o.s_bind with
@@ -161,7 +164,7 @@ let eval_step (leg : string) (cx : ctx) (st : srv_step) : (string * string * str
         | Some l ->
           let m = fmt p l in
           let c12 = (leg = "c12.consist") in
-          let sp = (match o with
+          let sp = lazy (match o with
               | None -> "-"
               | Some o ->
                 if not c12 then
@@ -179,21 +182,23 @@ let eval_step (leg : string) (cx : ctx) (st : srv_step) : (string * string * str
                       | _ -> []) in
                   if bad = [] then m else op ^ "=INCONSISTENT:" ^ String.concat "+" bad
                 end) in
+          let sp = (try Lazy.force sp with Ambig -> "-") in
           (m, sp, cursor_classes o @ name_classes cx o @ (if c12 then any_name_classes cx o else [])))
   | StHover (i, line, col) ->
     pos_query "hover" i line col (fun p s o empty ->
-        if empty then ("hover=none", (match o with Some o -> if spec_hover_local o then "hover=L:1" else "hover=G:1" | None -> "-"), cursor_classes o)
+        if empty then ("hover=none", (match o with Some o -> (if spec_hover_local o then "hover=L:" else "hover=G:") ^ string_of_bytes o.s_name | None -> "-"), cursor_classes o)
         else match hover_at cx.mw p.fnb p.fi s (z1 line) (z_of_int col) with
           | HSkip -> ("hover=SKIP-AMBIG", "-", [])
           | h ->
-            let m = (match h with HLocal -> "hover=L:1" | _ -> "hover=G:1") in
+            let m = (match h with HLocal -> "hover=L:" | _ -> "hover=G:") ^ string_of_bytes s in
             let sp = (match o with
                 | None -> "-"
                 | Some o ->
-                  if leg = "c12.consist" then
+                  if leg = "c12.consist" then (try
                     (if c12_hover (m_define cx) (m_hover_local cx) (is_local_decl_of cx.sw) p.fnb (z1 line) (z_of_int col)
-                     then m else "hover=INCONSISTENT:local-flag-differs-from-definition")
-                  else if spec_hover_local o then "hover=L:1" else "hover=G:1") in
+                     then (match h with HLocal -> "hover=L:" | _ -> "hover=G:") ^ string_of_bytes o.s_name
+                     else "hover=INCONSISTENT:local-flag-differs-from-definition") with Ambig -> "-")
+                  else (if spec_hover_local o then "hover=L:" else "hover=G:") ^ string_of_bytes o.s_name) in
             (m, sp, cursor_classes o @ (if leg = "c12.consist" then any_name_classes cx o else [])))
   | StComplete (i, line, col) ->
     let p = cx.files.(i) in
